@@ -191,44 +191,49 @@ def run_lexonly(chk, F, rid="R-LEXONLY"):
         if not q.startswith("UTAP::XMLReader::"):
             continue
         for fn in fns:
-            # variables holding block text
-            tv = {}
-            for d in walk(fn["body"]):
-                if d.get("k") == "decl":
-                    for v in d.get("vars", []):
-                        if v.get("init") is not None and any(c.get("name") == "xmlTextReaderConstValue"
-                                                             for c in calls(v["init"])):
-                            tv[v.get("id")] = v["name"]
-            for x in walk(fn["body"]):
-                if x.get("k") == "bin" and x.get("op") == "=" and x["lhs"].get("k") == "ref" and \
-                        any(c.get("name") == "xmlTextReaderConstValue" for c in calls(x["rhs"])):
-                    tv[x["lhs"].get("id")] = x["lhs"].get("name")
-            parsed = set()
+            # every parse(TEXT, part) call - also inside lambdas: TEXT is the reader's text value itself, or a
+            # variable / lambda parameter; in the latter case every other use of that variable is inspected
             for c in calls(fn["body"], "parse"):
-                if c.get("args") and c["args"][0].get("k") == "ref" and c["args"][0].get("id") in tv:
-                    parsed.add(c["args"][0]["id"])
-            if not parsed:
-                continue
-            for vid in parsed:
+                if not c.get("args") or (c.get("cls") or "") != "UTAP::XMLReader":
+                    continue
+                a0 = c["args"][0]
+                while a0.get("k") == "cast":
+                    a0 = a0["e"]
+                if a0.get("k") == "call" and a0.get("name") == "xmlTextReaderConstValue":
+                    n += 1
+                    chk.ob(rid, "%s|<reader text>" % fn["name"], True, "text handed to parse() directly",
+                           "%s:%s" % (fn["file"], c.get("l")))
+                    continue
+                if a0.get("k") != "ref":
+                    continue
+                vid, vname = a0.get("id"), a0.get("name")
                 n += 1
                 others = []
-                for c in calls(fn["body"]):
-                    if c.get("name") in ("parse", "is_blank", "xmlFree"):
+                for c2 in calls(fn["body"]):
+                    if c2.get("name") in ("parse", "is_blank", "xmlFree"):
                         continue
-                    for a in list(c.get("args", [])) + ([c["recv"]] if c.get("recv") else []):
-                        if any(y.get("k") == "ref" and y.get("id") == vid for y in walk(a)):
-                            others.append(c.get("name"))
+                    for a in list(c2.get("args", [])) + ([c2["recv"]] if c2.get("recv") else []):
+                        if a.get("k") == "lambda" or (a.get("k") in ("cast", "construct") and
+                                                      any(z.get("k") == "lambda" and any(w is c for w in walk(z))
+                                                          for z in walk(a))):
+                            if any(w is c for w in walk(a)):
+                                continue        # the variable lives inside this lambda: not an argument
+                        if any(y.get("k") == "ref" and (y.get("id") == vid if vid is not None else y.get("name") == vname)
+                               and y.get("name") == vname for y in walk(a)):
+                            others.append(c2.get("name") or "call")
                 for x in walk(fn["body"]):
-                    if x.get("k") == "sub" and any(y.get("k") == "ref" and y.get("id") == vid for y in walk(x["base"])):
+                    if x.get("k") == "sub" and any(y.get("k") == "ref" and y.get("name") == vname and
+                                                   (vid is None or y.get("id") == vid) for y in walk(x["base"])):
                         others.append("[]")
-                    if x.get("k") == "un" and x.get("op") == "*" and x["e"].get("k") == "ref" and x["e"].get("id") == vid:
+                    if x.get("k") == "un" and x.get("op") == "*" and x["e"].get("k") == "ref" and \
+                            x["e"].get("name") == vname and (vid is None or x["e"].get("id") == vid):
                         others.append("*")
-                chk.ob(rid, "%s|%s" % (fn["name"], tv[vid]), not others,
+                chk.ob(rid, "%s|%s" % (fn["name"], vname), not others,
                        "%s inspects the text of the block it parses outside the scanner (%s): a rewrite the scanner "
                        "ignores - a comment, a blank, parentheses - can change whether or how the block is parsed" %
                        (fn["q"], ", ".join(sorted(set(others)))), "%s:%s" % (fn["file"], fn["line"]))
     if n < 3:
-        raise AnalysisBroken("only %d parsed text variables found in the XML reader" % n)
+        raise AnalysisBroken("only %d parse(text, ..) calls found in the XML reader" % n)
 
 
 def run_commentlang(chk, L, rid="R-COMMENTLANG", maxlen=5):
@@ -288,3 +293,31 @@ def run_commentlang(chk, L, rid="R-COMMENTLANG", maxlen=5):
            "a `//` comment does not end exactly at the first line feed: %r should cover %s characters, covers %s" %
            (fb or ("", 0, 0)), "src/lexer.l")
     chk.analysed[rid] = {"strings_simulated": n + n2, "alphabet": sigma, "max_length": maxlen}
+
+
+def run_diag_sink(chk, F, rid="R-DIAGSINK"):
+    """C09 speaks about the multiset of diagnostics: every reported diagnostic must be recorded.  Document::add_error
+    and add_warning therefore append unconditionally - a filter (de-duplication, a cap, a severity switch) makes the
+    multiset depend on layout or order."""
+    chk.rule(rid, "Document::add_error and Document::add_warning append the diagnostic to their list on every path, "
+                  "unconditionally (exactly one append, not under any condition or loop)")
+    for name, lst in (("add_error", "errors"), ("add_warning", "warnings")):
+        fns = F.fns("UTAP::Document::" + name)
+        if not fns:
+            raise AnalysisBroken("Document::%s not found" % name)
+        for fn in fns:
+            top = fn["body"].get("s", []) if fn["body"].get("k") == "block" else [fn["body"]]
+            appends_top = 0
+            appends_all = 0
+            for st in top:
+                direct = st.get("k") not in ("if", "for", "while", "rangefor", "switch", "do", "try")
+                for c in calls(st):
+                    if c.get("name") in ("emplace_back", "push_back") and lst in short(c.get("recv")):
+                        appends_all += 1
+                        if direct:
+                            appends_top += 1
+            chk.ob(rid, "%s/%d" % (name, len(fn["params"])), appends_top == 1 and appends_all == 1,
+                   "Document::%s records the diagnostic %s: identical models that differ in layout or order of reports "
+                   "get different diagnostic multisets" %
+                   (name, "only under a condition" if appends_all and not appends_top else
+                    "%d times" % appends_all), "%s:%s" % (fn["file"], fn["line"]))
